@@ -996,11 +996,21 @@ func main() {
 	repo := flag.String("repo", "/repo", "repository working tree")
 	out := flag.String("out", "", "scratch directory for rewritten sources and overlay.json")
 	rtDir := flag.String("rt", "/verif/engine/rt", "directory holding the verifrt runtime sources")
+	as := flag.String("as", "", "module root the overlay entries are keyed under (default: -repo); lets a scratch copy of the tree stand in for /repo")
 	plain := flag.Bool("plain", false, "do not rewrite; only add the runtime and accessor files (for the -race build)")
 	flag.Parse()
 	if *out == "" {
 		fmt.Fprintln(os.Stderr, "inst: -out required")
 		os.Exit(2)
+	}
+	if *as == "" {
+		*as = *repo
+	}
+	remap := func(p string) string {
+		if rel, err := filepath.Rel(*repo, p); err == nil && !strings.HasPrefix(rel, "..") {
+			return filepath.Join(*as, rel)
+		}
+		return p
 	}
 	if err := os.Chdir(*repo); err != nil {
 		fmt.Fprintln(os.Stderr, err)
@@ -1011,7 +1021,7 @@ func main() {
 	filepath.Walk(*rtDir, func(p string, fi os.FileInfo, err error) error {
 		if err == nil && !fi.IsDir() && strings.HasSuffix(p, ".go") {
 			rel, _ := filepath.Rel(*rtDir, p)
-			overlay[filepath.Join(*repo, "verifrt", rel)] = p
+			overlay[filepath.Join(*as, "verifrt", rel)] = p
 		}
 		return nil
 	})
@@ -1070,13 +1080,18 @@ func main() {
 					}
 					dst := filepath.Join(od, filepath.Base(names[i]))
 					os.WriteFile(dst, buf.Bytes(), 0o644)
-					overlay[names[i]] = dst
+					overlay[remap(names[i])] = dst
+				}
+			} else if *as != *repo {
+				// plain mode over a stand-in tree: the unmodified sources still have to replace /repo's
+				for _, n := range names {
+					overlay[remap(n)] = n
 				}
 			}
 			if code := accessorFor(p, tp); code != "" {
 				dst := filepath.Join(od, "zz_verif_access.go")
 				os.WriteFile(dst, []byte(code), 0o644)
-				overlay[filepath.Join(dir, "zz_verif_access.go")] = dst
+				overlay[remap(filepath.Join(dir, "zz_verif_access.go"))] = dst
 			}
 		}
 	}
